@@ -248,14 +248,14 @@ func (c *Cert) Key() (*sr.PubKey, error) {
 
 // Config is what a verifier brings to the decision.
 type Config struct {
-	WantType    uint32                  // expected certificate type; 0 = the caller does not check the type
-	CheckCA     bool                    // whether the CA is looked up at all
-	TrustedCA   func(blob []byte) bool  // used when CheckCA
-	Principal   string                  // user name / host name
-	Now         uint64                  // seconds since the epoch
-	Supported   []string                // critical options the verifier understands
-	Revoked     bool                    // outcome of the revocation lookup
-	RequireCAUP bool                    // enforce the user-presence flag on an sk- CA signature (OpenSSH does not)
+	WantType    uint32                 // expected certificate type; 0 = the caller does not check the type
+	CheckCA     bool                   // whether the CA is looked up at all
+	TrustedCA   func(blob []byte) bool // used when CheckCA
+	Principal   string                 // user name / host name
+	Now         uint64                 // seconds since the epoch
+	Supported   []string               // critical options the verifier understands
+	Revoked     bool                   // outcome of the revocation lookup
+	RequireCAUP bool                   // enforce the user-presence flag on an sk- CA signature (OpenSSH does not)
 }
 
 // Decision is the reference outcome; Verdict Either means the specification leaves the
@@ -265,25 +265,22 @@ type Decision struct {
 	Reason  string
 }
 
-// Decide applies the validity rules to certificate c whose received encoding had the
-// signed prefix tbs.
-func Decide(c *Cert, tbs []byte, cfg Config) Decision {
-	no := func(why string) Decision { return Decision{sr.Invalid, why} }
+// DecideFields applies every rule except the signature check. ok=false means reject.
+func DecideFields(c *Cert, cfg Config) (ok bool, reason string) {
 	if cfg.WantType != 0 && c.CertType != cfg.WantType {
-		return no("wrong certificate type")
+		return false, "wrong certificate type"
 	}
 	if sr.PlainOfCert(stringField(c.SignatureKey)) != "" {
-		return no("signature key is a certificate")
+		return false, "signature key is a certificate"
 	}
-	ca, err := sr.ParsePubKey(c.SignatureKey)
-	if err != nil {
-		return no("signature key does not parse: " + err.Error())
+	if _, err := sr.ParsePubKey(c.SignatureKey); err != nil {
+		return false, "signature key does not parse"
 	}
 	if cfg.CheckCA && (cfg.TrustedCA == nil || !cfg.TrustedCA(c.SignatureKey)) {
-		return no("untrusted authority")
+		return false, "untrusted authority"
 	}
 	if cfg.Revoked {
-		return no("revoked")
+		return false, "revoked"
 	}
 	for _, o := range c.Critical {
 		ok := false
@@ -293,7 +290,7 @@ func Decide(c *Cert, tbs []byte, cfg Config) Decision {
 			}
 		}
 		if !ok {
-			return no("unsupported critical option " + o.Name)
+			return false, "unsupported critical option"
 		}
 	}
 	if len(c.Principals) > 0 {
@@ -304,23 +301,46 @@ func Decide(c *Cert, tbs []byte, cfg Config) Decision {
 			}
 		}
 		if !found {
-			return no("principal not listed")
+			return false, "principal not listed"
 		}
 	}
 	if cfg.Now < c.ValidAfter {
-		return no("not yet valid")
+		return false, "not yet valid"
 	}
 	if cfg.Now >= c.ValidBefore {
-		return no("expired")
+		return false, "expired"
+	}
+	return true, ""
+}
+
+// VerifySignature checks the CA signature over tbs, the signed prefix of the bytes as
+// they were received.
+func VerifySignature(c *Cert, tbs []byte, requireCAUP bool) (sr.Verdict, string) {
+	if sr.PlainOfCert(stringField(c.SignatureKey)) != "" {
+		return sr.Invalid, "signature key is a certificate"
+	}
+	ca, err := sr.ParsePubKey(c.SignatureKey)
+	if err != nil {
+		return sr.Invalid, "signature key does not parse"
 	}
 	sig, ok := sr.ParseSig(c.Signature)
 	if !ok {
-		return no("malformed signature")
+		return sr.Invalid, "malformed signature"
 	}
-	v, why := sr.Verify(ca, tbs, sig, cfg.RequireCAUP)
+	v, why := sr.Verify(ca, tbs, sig, requireCAUP)
 	if v == sr.Invalid {
-		return no("signature does not verify over the received bytes: " + why)
+		return v, "signature does not verify over the received bytes: " + why
 	}
+	return v, why
+}
+
+// Decide applies the validity rules to certificate c whose received encoding had the
+// signed prefix tbs.
+func Decide(c *Cert, tbs []byte, cfg Config) Decision {
+	if ok, why := DecideFields(c, cfg); !ok {
+		return Decision{sr.Invalid, why}
+	}
+	v, why := VerifySignature(c, tbs, cfg.RequireCAUP)
 	return Decision{v, why}
 }
 
